@@ -38,6 +38,8 @@ def run(R):
         r6(R, m)
     if R.want("C14.R7"):
         r7(R, m)
+    if R.want("C14.R8"):
+        r8(R, m)
 
 
 def r1(R, m):
@@ -744,3 +746,55 @@ def r7(R, m):
                     "the table handed back is a view of %s, a buffer the object keeps: the next call overwrites it, and the answers that "
                     "properties.pairrow / pairscans stored for earlier frame pairs all turn into (the first rows of) the last pair's table" % src(e)[:40])
     R.shape(n >= 1, "C14.R7", SPF, "overlaps_linear.__call__", "a return (nedge, table)")
+
+
+def r8(R, m):
+    """sparse -> dense: the image handed back holds the frame's pixels and zero everywhere else, also when the caller supplies the
+    array (a buffer reused over the frames of a scan).  Either the whole of `out` is written by one call that zeroes it
+    (scipy's coo_matrix.todense(out=) overwrites the array), or every scattered store into it is preceded on every path by an
+    array of zeros made in the call or a whole-array zero fill."""
+    R.rule("C14.R8", "sparse_frame.to_dense: every cell of the returned image that is not a pixel of the frame is zero on every path - a "
+                     "caller-supplied 'out' is overwritten as a whole (coo_matrix.todense(out=)) or zero-filled before the pixels are scattered into it")
+    q = "sparse_frame.to_dense"
+    fn = m.func(q)
+    params = [a.arg for a in fn.args.args]
+    cfg = pyfacts.PyCFG(fn)
+    import networkx as nx
+    n = 0
+    rets = [r for r in ast.walk(fn) if isinstance(r, ast.Return) and r.value is not None]
+    R.shape(len(rets) >= 1, "C14.R8", SPF, q, "the return of the dense image")
+    names = set(src(r.value) for r in rets if isinstance(r.value, ast.Name))
+    for buf in sorted(names):
+        fills, whole, scat = set(), [], []
+        for st in ast.walk(fn):
+            if pyfacts.zero_fill(st, buf):
+                nd = cfg.node_of(st)
+                if nd is not None:
+                    fills.add(nd.id)
+            if isinstance(st, ast.Call) and isinstance(st.func, ast.Attribute) and st.func.attr in ("todense", "toarray"):
+                if any(k.arg == "out" and src(k.value) == buf for k in st.keywords):
+                    whole.append(st)
+            if isinstance(st, (ast.Assign, ast.AugAssign)):
+                for t in (st.targets if isinstance(st, ast.Assign) else [st.target]):
+                    if isinstance(t, ast.Subscript):
+                        root = t.value
+                        while isinstance(root, (ast.Subscript, ast.Attribute)):
+                            root = root.value
+                        if isinstance(root, ast.Name) and root.id == buf and not pyfacts.zero_fill(st, buf):
+                            scat.append(st)
+        for c in whole:
+            n += 1
+            R.inst("C14.R8", "%s:%s %s written as a whole by %s" % (SPF, q, buf, src(c)[-40:]))
+        for st in scat:
+            n += 1
+            nd = cfg.node_of(st)
+            R.shape(nd is not None, "C14.R8", SPF, q, "the store '%s' in the flow graph" % src(st)[:60])
+            g = cfg.g.copy()
+            g.remove_nodes_from(fills | set(cfg.node_of(c).id for c in whole if cfg.node_of(c) is not None))
+            bad = buf in params and nd.id in g and nx.has_path(g, cfg.entry.id, nd.id)
+            R.check(not bad, "C14.R8", SPF, st.lineno, q, src(st)[:80],
+                    "the pixels are scattered into '%s' on a path where it is the array the caller supplied and nothing has zeroed it: cells "
+                    "that are not pixels of this frame keep what the buffer held (the previous frame of a scan), so sparse -> dense does "
+                    "not reproduce the selected pixels" % buf,
+                    desc="%s:%s scattered store into %s is preceded by zeros on every path" % (SPF, q, buf))
+    R.shape(n >= 1, "C14.R8", SPF, q, "how the dense image is filled (todense(out=) or a scattered store)")
